@@ -51,7 +51,8 @@ CLAIMS = {
             "configured policy; a plain compaction writes every entry it reads and leaves its loop only at end of input; "
             "inputs are removed/opened/merged/summed and outputs added/linked/recorded/summed; GC's drops equal its discard; the "
             "collector resets its per-key state on every key change; any/all consult every child without short-circuit and the version "
-            "counter always retains a key's first untombstoned version.  "
+            "counter always retains a key's first untombstoned version; the multi-builder seals every builder it lets go, records every file it "
+            "opens and forwards each entry unchanged to the current builder.  "
             "Does not decide multiset equality of contents or GC policy semantics.", "§4 C05"),
     "C06": ("HELD lock-guard dataflow (must/may), ORDER, GUARDED, WRITES and ORIGIN over KeyValueStore::{write,load,range_scan,_memtable_thread}",
             "Decides the critical-section and completion-order skeleton linearizability needs: one critical section assigns queue "
